@@ -46,6 +46,11 @@ def cmdValidate (j : Json) : Except String Json := do
   | .ok _ => return "ok"
   | .error e => return Json.str ("err:" ++ (toJson e).compress.replace "\"" "")
 
+def cmdEngine (j : Json) : Except String Json := do
+  let p : Engine.MPlan ← j.getObjValAs? Engine.MPlan "plan"
+  let r := Engine.runPlan p
+  return Json.mkObj [("status", toJson r.status), ("reason", toJson r.reason), ("evs", toJson r.out.evs), ("objs", toJson r.out.objs)]
+
 def dispatch (j : Json) : Except String Json := do
   let cmd ← j.getObjValAs? String "cmd"
   match cmd with
@@ -53,6 +58,7 @@ def dispatch (j : Json) : Except String Json := do
   | "attempts" => cmdAttempts j
   | "build" => cmdBuild j
   | "validate" => cmdValidate j
+  | "engine" => cmdEngine j
   | "ping" => return "pong"
   | _ => throw s!"unknown cmd {cmd}"
 
